@@ -116,6 +116,33 @@ theorem readback_utc (y m d : Int) (h mi s j : ℚ) (hv : Valid y m d) (hy1 : 19
     rw [e]
     exact readback_utc_core y m d _ hv hy1 hy2 hf0 hf1
 
+/-- "an explicit leap_seconds value replaces the table value in both directions" (read-back direction): the epoch built
+    with `leap_seconds=L` reads back, with `leap_seconds=L` (with or without `utc=`), as the original civil date-time —
+    for every override 0 ≤ L (< 86000 s), 0 included (there nothing is added and nothing is subtracted). -/
+theorem override_readback (y m d : Int) (h mi s j L : ℚ) (u u' : Option Bool) (hv : Valid y m d) (hy1 : 1972 ≤ y) (hy2 : y ≤ 9998)
+    (hf0 : 0 ≤ h / 24 + mi / 1440 + s / 86400) (hf1 : h / 24 + mi / 1440 + s / 86400 < 1)
+    (hL0 : 0 ≤ L) (hL1 : L < 86000)
+    (hj : epoch_set_kw y m (d : ℚ) h mi s u (some L) = .ok j) :
+    get_date_kw j u' (some L) = .ok (y, m, (d : ℚ) + (h / 24 + mi / 1440 + s / 86400)) := by
+  unfold epoch_set_kw at hj
+  cases hc : check_values y (get_month_int m) (d : ℚ) h mi s with
+  | error e => simp [hc] at hj
+  | ok t =>
+    obtain ⟨rfl, hm1, hm12, _⟩ := check_values_ok y m (d : ℚ) h mi s t hc
+    have e : (d : ℚ) + (h / 24.0 + mi / 1440.0 + s / 86400.0) = (d : ℚ) + (h / 24 + mi / 1440 + s / 86400) := by norm_num
+    by_cases hL : L = 0
+    · subst hL
+      have hz : compute_jde_kw y m ((d : ℚ) + (h / 24.0 + mi / 1440.0 + s / 86400.0)) false 0
+          = .ok (compute_jde y m ((d : ℚ) + (h / 24.0 + mi / 1440.0 + s / 86400.0))) := by
+        have := compute_jde_kw_plain y m ((d : ℚ) + (h / 24.0 + mi / 1440.0 + s / 86400.0))
+        rwa [show (0.0 : ℚ) = 0 by norm_num] at this
+      simp only [hc, hz, Except.ok.injEq] at hj
+      rw [← hj, get_date_kw_override_zero, e, compute_jde_frac y m d _ hf0 hf1]
+      exact get_date_valid y m d _ hv hf0 hf1
+    · simp only [hc, compute_jde_kw_override _ _ _ _ hy1 hL, Except.ok.injEq] at hj
+      rw [← hj, e]
+      exact readback_override_core y m d _ L u' hv hy1 hy2 hf0 hf1 hL (by norm_num; linarith) (by norm_num; linarith)
+
 /-- the leap-second boundary itself: 2016-12-31 23:59:30 UTC (TT image on 2017-01-01, count 27) reads back with the
     count of December (26), and 2017-01-01 00:00:10 UTC with the count of January -/
 theorem readback_utc_at_leap_second :
